@@ -215,16 +215,68 @@ def r_ordered(prog, tier):
                 continue
             ok = ctx[0]
             why = ctx[1]
-            if not ok and f.fq in RAW_OK:
+            if not ok:
+                # a list known to hold at most one element has no order
+                from ..core import facts_for
+                X = unparse(n.value)
+                forms = ['len(%s.children)' % X, 'len(trees.children(%s))' % X, 'len(children(%s))' % X]
+                for fa in facts_for(f, n):
+                    if fa[0] == 'cmp' and ((fa[1] in forms and fa[2] == '==' and fa[3] in ('0', '1'))
+                                           or (fa[1] in forms and fa[2] in ('<=',) and fa[3] in ('0', '1'))
+                                           or (fa[1] in forms and fa[2] == '<' and fa[3] in ('1', '2'))):
+                        ok, why = True, 'at most one child here (`%s %s %s`): no order to observe' % (fa[1], fa[2], fa[3])
+                    if fa[0] == 'opaque' and fa[2] is False and fa[1] in ('has_children(%s)' % X, 'trees.has_children(%s)' % X):
+                        ok, why = True, 'no children here'
+            if not ok and isinstance(par, ast.For) and par.iter is n:
+                sens = _order_sensitive(par, unparse(n), prog, f)
+                if sens is None:
+                    ok, why = None, 'for-loop over the stored child list whose body could not be shown to depend on the order'
+                else:
+                    why = why + ': ' + sens
+            if not ok and ok is not None and f.fq in RAW_OK:
                 ok = True
                 why = 'RAW table: ' + RAW_OK[f.fq]
-            if not ok and f.fq == 'trees.children':
+            if ok is False and f.fq == 'trees.children':
                 continue
             obs.append(Ob('R-ORDERED/RAW', f.fq, 'stored child order is not observed: `%s`'
                           % unparse(par if par is not None else n)[:80], ok, why,
                           construct='raw:' + unparse(par if par is not None else n),
                           line=n.lineno, nontrivial=not ok or 'order' in why))
     return obs, {'ordered_accessor_call_sites': ncalls}
+
+
+def _order_sensitive(loop, listtxt, prog=None, f=None):
+    """Why the body of `for x in <stored list>` depends on the order (or changes the list), else None."""
+    for st in loop.body:
+        for x in [st] + list(ast.walk(st)):
+            if prog is not None and isinstance(x, ast.Call):
+                c = prog.callee(x, f)
+                g = prog.func(c[0], c[1], required=False) if c else None
+                if g is not None:
+                    from ..events import link_events
+                    try:
+                        evs = link_events(prog, g)
+                    except Exception:
+                        evs = []
+                    if any(e.kind in ('DET', 'ATT', 'CLR', 'OTHER') for e in evs):
+                        return 'the body calls %s, which re-links nodes: the stored list can change while it is iterated' % g.fq
+            if isinstance(x, (ast.Yield, ast.YieldFrom)):
+                return 'the body yields in that order'
+            if isinstance(x, (ast.Break, ast.Return)):
+                return 'the loop stops at the first match in stored order'
+            if isinstance(x, ast.Call) and isinstance(x.func, ast.Attribute):
+                if x.func.attr in ('append', 'extend', 'insert', 'write', 'writelines'):
+                    if unparse(x.func.value) == listtxt:
+                        return 'the body changes the list it iterates'
+                    return 'the body appends / writes in that order'
+                if x.func.attr in ('remove', 'pop') and unparse(x.func.value) == listtxt:
+                    return 'the body removes from the list it iterates: elements are skipped'
+            if isinstance(x, ast.Call) and isinstance(x.func, ast.Name) and x.func.id == 'print':
+                return 'the body prints in that order'
+            if isinstance(x, ast.AugAssign) and isinstance(x.op, ast.Add) and not isinstance(x.value, ast.Constant) \
+                    and isinstance(x.target, ast.Name):
+                return 'the body concatenates in that order'
+    return None
 
 
 def _raw_context(n, par, parents):
@@ -329,7 +381,9 @@ def r_levels(prog, tier):
 
 def _is_leftmost_sorted(prog, f, call):
     """sorted(X, key=<leftmost>) without reverse; key may be a lambda, a nested def or a module function"""
-    if not (isinstance(call, ast.Call) and isinstance(call.func, ast.Name) and call.func.id == 'sorted' and call.args):
+    is_sorted = isinstance(call, ast.Call) and isinstance(call.func, ast.Name) and call.func.id == 'sorted' and call.args
+    is_sort = isinstance(call, ast.Call) and isinstance(call.func, ast.Attribute) and call.func.attr == 'sort' and not call.args
+    if not (is_sorted or is_sort):
         return False
     if _kw(call, 'reverse') is not None:
         return False
@@ -425,7 +479,11 @@ def r_expnum(prog, tier):
         obs.append(Ob('R-EXPNUM', f.fq, 'levels are numbered in ascending order (children below parents)', asc, whya,
                       construct='num-asc', line=n.lineno))
         # (N2b) left to right within a level
-        if not any_leftmost_sort:
+        any_sort = any((isinstance(c.func, ast.Name) and c.func.id == 'sorted' and _kw(c, 'key') is not None)
+                       or (isinstance(c.func, ast.Attribute) and c.func.attr == 'sort') for c in all_calls)
+        if not any_leftmost_sort and (any_sort or prog.opaque_calls(f, [lvname] if lvname else [])):
+            l2r, whyl = None, 'a sort with a key this rule does not recognise decides the order inside a level'
+        elif not any_leftmost_sort:
             l2r, whyl = False, 'nodes of one level are never sorted by their leftmost token: they are numbered in the order ' \
                                'the traversal collected them'
         else:
